@@ -3,6 +3,7 @@ import Uom.Proofs.FlConvIdentity
 import Uom.Proofs.DurationBasic
 import Uom.Proofs.DurationAcc
 import Uom.Proofs.BodyEq.Dur
+import Uom.Proofs.DurPowOracleSound
 /-!
 # C14 — Time ↔ std Duration conversion is total, classified and accurate
 
@@ -137,6 +138,34 @@ theorem int_decimal_base_exact (k : Nat) (hk : k ≤ 9) (v : Int) (s n : Nat)
     (h : durOfTimeInt (1 / 10 ^ k) 1 (1 / 10 ^ 9) v = .ok s n) :
     (s : Int) * 10 ^ 9 + (n : Int) = v * 10 ^ (9 - k) ∧ n < 10 ^ 9 ∧ (s : Int) = v / 10 ^ k :=
   DurationAcc.durOfTimeInt_decimal_exact k hk v h
+
+/-! ### totality, and the executable oracle accepts the model -/
+
+/-- **"never panics", for floats in any base unit**: the model of `Duration::try_from(time)` never reaches
+    `Duration::new`'s overflow panic (a float below 2^64 leaves room for the carry), for every format up to 61
+    bits of precision, every base factor and coefficient, every value -/
+theorem float_conversion_never_panics (f : Fmt) (hf : f.WF) (hp61 : f.p ≤ 61) (fac cs cn v : Fl) :
+    durOfTimeFl f fac cs cn v ≠ .panic := DurPowOracleSound.durOfTimeFl_ne_panic hf hp61 fac cs cn v
+
+/-- the Duration oracle of the driver (`dur.class`, `dur.accuracy`: classification and "within 1 ns + 4u")
+    never rejects the model in the second base unit (binary64), for every canonical value incl. NaN, ±∞,
+    negatives and values ≥ 2^64 s.  The one hypothesis is about *text*: that the printed `ok:<s>:<n>` reads
+    back as `(s, n)` (Lean 4.33 has no lemmas about `String.splitOn` / `toNat?` and the kernel cannot evaluate
+    them; the driver's own parse of its own print). -/
+theorem oracle_accepts_duration_f64 {v : Fl} (hc : Fl.Canonical b64 v)
+    (hrt : ∀ s n, durOfTimeFl b64 (Fl.one b64) (Fl.one b64) DurationAcc.cn64 v = .ok s n → DurPowOracleSound.OkTextRT s n)
+    (m : String) :
+    DurPowOracleSound.NotProp (oracleDurFl b64 (Fl.one b64) (Fl.one b64) DurationAcc.cn64 v m
+      (durOfTimeFl b64 (Fl.one b64) (Fl.one b64) DurationAcc.cn64 v).show) :=
+  DurPowOracleSound.oracleDurFl_sound_second_b64 hc hrt m
+
+/-- in any *other* base unit (positive coefficients) the only thing the oracle can hold against the model is
+    the recorded finding F4 — never a classification failure -/
+theorem oracle_rejects_model_only_for_F4 (f : Fmt) (hf : f.WF) (hp2 : 2 ≤ f.p) (hp61 : f.p ≤ 61) (fac cs cn v : Fl)
+    (hcv : Fl.Canonical f v) (hfac : 0 < fac.toRat) (hcs : 0 < cs.toRat) (hsb : Fl.cmp fac cs ≠ some 0)
+    (hrt : ∀ s n, durOfTimeFl f fac cs cn v = .ok s n → DurPowOracleSound.OkTextRT s n) (tag why : String)
+    (h : oracleDurFl f fac cs cn v (durOfTimeFl f fac cs cn v).show (durOfTimeFl f fac cs cn v).show = .prop tag why) :
+    tag = "dur.F4" := DurPowOracleSound.oracleDurFl_tag hf hp2 hp61 fac cs cn v hcv hfac hcs hsb hrt tag why h
 
 /-! ### tie to the source: the two `TryFrom` impls regenerated from /repo/src/si/time.rs on this run
 
